@@ -75,7 +75,24 @@ def cases(draw, dag=False):
             q[1] = gen._jsid(tup(q[1]))
             emit_eval(q)
     for _ in range(draw(st.integers(4, 14))):
-        k = draw(st.integers(0, 11))
+        k = draw(st.integers(0, 12))
+        if k == 12:
+            # copy a cells that has assigned values into a space that lacks the name (same name: the formula's
+            # tick call carries it); the copy starts with the same assigned values
+            cands = sorted((kk for kk, d in G.inputs.items() if d and all(isinstance(x, str) for x in kk[0])), key=repr)
+            if cands:
+                src, name = draw(st.sampled_from(cands))
+                tgts = [t for t in G.all_spaces() if G.find_cells(t, name) is None and name not in t.children
+                        and G.find_ref(t, name) is None and t.formula is None]
+                if tgts:
+                    t = draw(st.sampled_from(tgts))
+                    op = ["copy_cells", list(src), name, list(t.path), name]
+                    hist.append(op)
+                    apply_ref(G, op)
+                    for key, v in G.inputs.get((t.path, name), {}).items():
+                        gsim.assign((t.path, name, key), v)
+                    sids = gen.all_ctx_ids(G) + gen.item_sids(G, 2)
+            continue
         q = gen.gen_query(draw, G, sids)
         if q is None:
             break
@@ -214,6 +231,30 @@ def run_case(case):
             f = compare_held(real, sim, rm, "after evaluation %r" % (op,))
             if f:
                 return out.fail(f[0], f[1], i)
+            continue
+        if k == "copy_cells":
+            res = real.apply(op)
+            if res[0] != "ok":
+                continue
+            apply_ref(rm, op)
+            dst = tuple(op[3])
+            for key, v in rm.inputs.get((dst, op[4]), {}).items():
+                sim.assign((dst, op[4], key), v)
+            out.count("copies")
+            # a new name may discard computed values of the target namespace (coarse invalidation is allowed);
+            # assigned values - the copied ones included - must be there
+            after = live_held(real)
+            for e, v in list(sim.inputs.items()):
+                if all(isinstance(x, str) for x in e[0]) and (e not in after or plain_real(after[e]) != v):
+                    return out.fail("input-lost-on-copy", "assigned value %r=%r is %r after %r" % (
+                        e, v, after.get(e, "<gone>"), op), i)
+            extra = set(after) - sim.held
+            if extra:
+                return out.fail("held-set", "values appeared after %r: %r" % (op, sorted(extra, key=repr)[:5]), i)
+            sim.discard_many(list(sim.held - set(after)))
+            if sim.held != set(after):
+                return out.fail("held-set", "after %r a value was dropped while something computed from it "
+                                "is still held: %r" % (op, sorted(set(after) - sim.held, key=repr)[:5]), i)
             continue
         # ---- value edits ---------------------------------------------------------
         before = live_held(real)
